@@ -490,6 +490,38 @@ theorem l2_complete_increase {s s' : Life2.St} {u i x y : Nat} {act : Life2.Act}
     s'.vaultShort = s.vaultShort ∧ s'.recShort = s.recShort ∧ s'.minted = s.minted ∧ s'.burned = s.burned := by
   simp [Life2.complete] at h; subst h; simp [Life2.setAct]
 
+/-- stage 3c — a completed market-decrease order (kind 5): exactly the declared outputs `x y` (to the order escrow) and
+the declared claimable amounts `cl cs` (owner) and `ch` (holding) leave BOTH the vault and the recorded balance; the
+claimable totals grow by exactly those amounts; the supply is untouched; from a solvent state nothing truncates and
+the result is solvent (so `recorded ≤ vault` survives every decrease — also covered by `l2_recorded_le_vault`). -/
+theorem l2_complete_decrease {s s' : Life2.St} {u i x y cl cs ch : Nat} {pc : Bool} {act : Life2.Act} (hs : Life2.Solvent s)
+    (h : Life2.complete s u 5 i act x y cl cs ch pc = some s') :
+    s'.vaultLong + (x + cl + ch) = s.vaultLong ∧ s'.recLong + (x + cl + ch) = s.recLong ∧
+    s'.vaultShort + (y + cs) = s.vaultShort ∧ s'.recShort + (y + cs) = s.recShort ∧
+    s'.claimLong = s.claimLong + cl + ch ∧ s'.claimShort = s.claimShort + cs ∧
+    s'.minted = s.minted ∧ s'.burned = s.burned ∧ Life2.Solvent s' ∧
+    (∃ act', s'.acts u 5 i = some act' ∧ act'.escLong = act.escLong + x ∧ act'.escShort = act.escShort + y) := by
+  obtain ⟨_, _, _, _, _, _, v1, r1, v2, r2, c1, c2, hle⟩ := complete_decrease (Nat.le_refl 5) h
+  obtain ⟨hl, hsh⟩ := hle hs
+  obtain ⟨_, _, _, _, _, hsol, _⟩ := complete_some h
+  have hrest : s'.minted = s.minted ∧ s'.burned = s.burned ∧
+      (∃ act', s'.acts u 5 i = some act' ∧ act'.escLong = act.escLong + x ∧ act'.escShort = act.escShort + y) := by
+    have h' := h
+    simp only [Life2.complete] at h'; simp at h'
+    obtain ⟨_, _, _, h'⟩ := h'
+    subst h'
+    exact ⟨rfl, rfl, { act with state := 1, escLong := act.escLong + x, escShort := act.escShort + y },
+      by simp [Life2.setAct], rfl, rfl⟩
+  exact ⟨by omega, r1, by omega, r2, c1, c2, hrest.1, hrest.2.1, hsol hs, hrest.2.2⟩
+
+example : (Life2.run (Life2.init 10000 5000 100)
+    [.create 1 4 0 700 300 false 400000 1, .price 0, .exec .keeper 1 4 0 5 true false 0 0,
+     .create 1 5 0 0 10000 false 400000 2, .price 0, .exec .keeper 1 5 0 5 true false 50 0 false 3 0 1 false]).1.recLong = 646 := by decide
+example : ∃ s', Life2.complete { Life2.init 10000 5000 100 with vaultLong := 701, recLong := 700, posSize := fun _ => 30000 } 1 5 0
+      { state := 0, escLong := 0, escShort := 0, escMt := 0, createdAt := 100, execLamports := 400000, soft := false, receiver := 2, size := 10000 }
+      50 0 3 0 1 false = some s' ∧ s'.vaultLong = 647 ∧ s'.recLong = 646 ∧ s'.claimLong = 4 ∧ s'.posSize 1 = 20000 :=
+  ⟨_, rfl, rfl, rfl, rfl, rfl⟩
+
 example : (Life2.run (Life2.init 10000 5000 100)
     [.create 0 0 0 2000 300 false 500000 0, .price 0, .exec .keeper 0 0 0 0 true false 600 0, .close (.user 0) 0 0 0,
      .create 0 1 0 100 0 false 0 0, .exec .keeper 0 1 0 0 true false 333 50]).1.recLong = 1667 := by decide
